@@ -16,7 +16,7 @@ TRUSTED = ['Lean 4.33.0 kernel (+ leanchecker in the thorough tier)',
            'compiled driver peldrv agrees with the kernel reading of the same definitions']
 ASSUME = ['bytes.find and sorted() are modelled (findSub, insertion sort), not verified',
           '"recognised header" is read as the first occurrence of each of the six 8-byte patterns (start bytes + name)',
-          'the stand-alone ILOG/trace decoders are those of C14/C15']
+          'the stand-alone ILOG/trace decoders are those of C14/C15; both tables are loaded by the loaders of the model (C14/C15) from the shipped file lines']
 RULE = ('cases = dump byte strings with random placements/orderings/subsets of the six buffer headers (none, adjacent, offset 0, '
         'duplicates, names without the start bytes), and the same bytes rendered in both hex-dump text formats with short last '
         'lines and noise lines; non-trivial = at least one recognised header; distinct by bytes')
@@ -74,10 +74,9 @@ def run(tier, seed):
         reqs, meta = [], []
         drawers = []
         for name, (hdr, sf) in iod.drawer_files().items():
-            tbl = [(t.pte_pattern, t.message_format, list(t.params)) for t in il.PTETable(hdr).entries]
-            strs = [(t.hash_value, t.message_format, t.location) for t in tr.TraceStringFile(sf).trace_strings]
-            reqs.append('deftbl ' + iod.tok_tbl(tbl)); meta.append(None)
-            reqs.append('defstr ' + iod.tok_strs(strs)); meta.append(None)
+            # both tables are loaded by the MODEL's loaders from the file lines (header file / string file -> decode runs inside the model)
+            reqs.append('deftblfile ' + iod.tok_lines(iod.file_lines(hdr))); meta.append(None)
+            reqs.append('defstrfile ' + iod.tok_lines(iod.file_lines(sf))); meta.append(None)
             drawers.append((name, hdr, sf))
         dumps = []
         for _ in range(600 if thorough else 120):
